@@ -7,6 +7,7 @@
 From Coq Require Import ZArith QArith List Bool Permutation.
 From Ladim Require Import Base.Num Model.Time Model.Sim Proofs.SimProofs Proofs.SimIndepProofs Proofs.SimPermProofs Proofs.SymmetryProofs.
 From Ladim Require Import Model.Setup Proofs.SimRelProofs Proofs.SetupProofs Proofs.SetupSymProofs.
+From Ladim Require Model.Tracker.
 Import ListNotations.
 Open Scope Z_scope.
 
@@ -78,7 +79,13 @@ Print Assumptions C14_run_depends_on_environment_only.
     The releaser of the set-up works in either mode ([s_cont]): discrete release of the table rows at their
     times, or continuous release (discretize() on the frequency grid; tables satisfying C04's [cont_ok]).
     The physics of the set-up includes LAND cells along the particle line ([s_land]): u-faces next to land
-    masked to zero, moves onto land cancelled, death outside the valid interval (stated in Props/C09.v). *)
+    masked to zero, moves onto land cancelled, death outside the valid interval (stated in Props/C09.v).
+    The ADVECTION SCHEME of the tracker is inside the set-up model ([s_adv]: EF, RK2 = midpoint, RK4 = classical,
+    with Forcing.velocity's fractional-step sampling u + f dU at f = 0, 1/2, 1/2, 1 and the masked-face
+    interpolation at every stage position): the theorem covers the three schemes.  Well-formedness ([setup_ok])
+    includes [no_clip]: no frame moves a particle by more than 98/100 (RK2) / 49/100 (RK4) of a cell per step, so
+    that the clip of the stage positions in tracker.py — not modelled — is the identity ([C14_stages_never_clipped]
+    in Props/C14.v); set-ups with a faster flow under RK2 / RK4 are EXCLUDED. *)
 Theorem C14_closed_shift : forall s d, setup_ok s = true ->
   setup_ok (shift_setup s d) = true /\ srel pv pv Z pv_eq (m_run s) (m_run (shift_setup s d)).
 Proof. exact shift_invariance. Qed.
@@ -86,7 +93,9 @@ Print Assumptions C14_closed_shift.
 
 (** the machines compute the specification: for every well-formed set-up the run equals the run in which
     particles enter at the steps of their release times (C04's schedule), feel the linear interpolation of
-    the frames (C03) with the reversal sign, and carry the latest scalar frame; in continuous-release mode
+    the frames (C03) with the reversal sign — under RK2 / RK4 the stage at fractional step f of step n feels the
+    interpolation at the point n + f of the step axis (C03's [fractional_velocity]) —, and carry the latest scalar
+    frame; in continuous-release mode
     particles enter at every tick of the frequency grid inside the window, with the row set of the latest
     file time (C04's [cont_released_at]) *)
 Theorem C14_run_refines_spec : forall s, setup_ok s = true -> srel pv pv Z pv_eq (m_run s) (sp_run s).
@@ -110,14 +119,15 @@ Definition xs_of (r : sim pv Z) : list (Z * list Q) :=
   map (fun x : rec pv => (rstep x, map (fun y : Z * Z * pv => Qred (vx (snd y))) (rrows x))) (recs r).
 Definition no_land (s : setup) : setup :=
   {| s_tk := s_tk s; s_files := s_files s; s_tab := s_tab s; s_cont := s_cont s; s_period := s_period s;
-     s_dtdx := s_dtdx s; s_lo := s_lo s; s_hi := s_hi s; s_life := s_life s; s_cfac := s_cfac s; s_land := [] |}.
+     s_dtdx := s_dtdx s; s_lo := s_lo s; s_hi := s_hi s; s_life := s_life s; s_cfac := s_cfac s; s_land := [];
+     s_adv := s_adv s |}.
 Example C14_closed_land_ex :
   s_land ex_setup_land = [4] /\ setup_ok ex_setup_land = true /\ setup_ok (shift_setup ex_setup_land 777) = true /\
   show_run (m_run (shift_setup ex_setup_land 777)) = show_run (m_run ex_setup_land) /\
   show_run (sp_run ex_setup_land) = show_run (m_run ex_setup_land) /\
   m_u ex_setup_land 0 = (-15)%Q /\
   Qred (felt ex_setup_land (-15) 5) = (-15 # 2)%Q /\ Qred (felt ex_setup_land (-15) 6) = (-15)%Q /\
-  move ex_setup_land (-15) {| vx := 5; vcls := 0; vage := 0; vtemp := 0 |} 0 =
+  move ex_setup_land (fun _ => (-15)%Q) {| vx := 5; vcls := 0; vage := 0; vtemp := 0 |} 0 =
     ({| vx := 5; vcls := 0; vage := 0; vtemp := 0 |}, true) /\
   xs_of (m_run ex_setup_land) =
     [(0, [5%Q]); (1, [5%Q]); (2, [5%Q; 6%Q; 6%Q]); (3, [(73 # 16)%Q; (89 # 16)%Q; (89 # 16)%Q]);
@@ -136,4 +146,81 @@ Example C14_closed_cont_ex :
   show_run (sp_run ex_setup_cont) = show_run (m_run ex_setup_cont) /\
   map (fun r : rec pv => (rstep r, map (fun y : Z * Z * pv => snd (fst y)) (rrows r))) (recs (m_run ex_setup_cont)) =
     [(0, [0]); (2, [0; 0]); (4, [0; 0; 1; 1; 2])].
+Proof. vm_compute. repeat split. Qed.
+
+(** * the advection scheme inside the set-up model *)
+(** the clip of tracker.py, which Model/Setup.v leaves out, never acts in a well-formed set-up: at every step of
+    the run every stage position of a particle inside the valid interval is a fixed point of the clip into
+    [xmin + 0.01, xmax - 0.01] = [lo - 49/100, hi + 49/100] (this is what [no_clip] in [setup_ok] buys) *)
+Theorem C14_stages_never_clipped : forall s n v c,
+  setup_ok s = true -> 0 <= n < s_nsteps s -> inside s (vx v) = true ->
+  Forall (fun X => (Tracker.clipq (s_lo s - (49 # 100)) (s_hi s + (49 # 100)) X == X)%Q)
+         (stage_points s (m_uf s n) c (vx v)).
+Proof. exact stages_not_clipped. Qed.
+Print Assumptions C14_stages_never_clipped.
+(** the machine's flow at the fractional steps the schemes sample is the interpolation of the frames at n + f *)
+Theorem C14_fractional_flow : forall s n f, setup_ok s = true -> 0 <= n < s_nsteps s -> frac_ok f ->
+  (m_uf s n f == sp_uf s n f)%Q.
+Proof. intros s n f Hok. apply m_uf_spec. apply setup_ok_facts. exact Hok. Qed.
+Print Assumptions C14_fractional_flow.
+(** the velocity of the set-up's scheme is the velocity of the tracker model's scheme (Model/Tracker.v: RK2 / RK4
+    WITH the clip; tied to tracker.py by the correspondences of C01 and C09) along the particle line, for the
+    velocity oracle "flow felt at the stage position at the stage fraction", whenever the stage positions lie in
+    the clip box — which [C14_stages_never_clipped]'s lemma [stages_in_box] gives at every step of a run *)
+Theorem C14_scheme_is_tracker_RK2 : forall s uf c x y dtdy ylo yhi,
+  Forall (in_box s) (stage_points s uf c x) -> s_adv s = 1 ->
+  (adv s uf c x == fst (Tracker.RK2 (vel1 s uf c) (s_dtdx s) dtdy (s_lo s - (49 # 100)) (s_hi s + (49 # 100)) ylo yhi x y))%Q.
+Proof. exact adv_is_tracker_RK2. Qed.
+Print Assumptions C14_scheme_is_tracker_RK2.
+Theorem C14_scheme_is_tracker_RK4 : forall s uf c x y dtdy ylo yhi,
+  Forall (in_box s) (stage_points s uf c x) -> s_adv s = 2 ->
+  (adv s uf c x == fst (Tracker.RK4 (vel1 s uf c) (s_dtdx s) dtdy (s_lo s - (49 # 100)) (s_hi s + (49 # 100)) ylo yhi x y))%Q.
+Proof. exact adv_is_tracker_RK4. Qed.
+Print Assumptions C14_scheme_is_tracker_RK4.
+Theorem C14_stages_in_box : forall s n v c,
+  setup_ok s = true -> 0 <= n < s_nsteps s -> inside s (vx v) = true ->
+  Forall (in_box s) (stage_points s (m_uf s n) c (vx v)).
+Proof. exact stages_in_box. Qed.
+Print Assumptions C14_stages_in_box.
+
+(** non-vacuity, RK2 / RK4: [ex_setup_rk2] = [ex_setup] (reversed clock; flow -15, -13, -11 at the fractions 0, 1/2,
+    1 of step 0) under RK2, [ex_setup_rk4] = the same on the grid dt/dx = 1/32 under RK4: both are well-formed, so are
+    their shifted images, the shifted runs and the specification runs equal the runs, and the particles move
+    otherwise than under EF (positions in the three records; without land RK4 and RK2 coincide — uniform flow,
+    linear in time within a step); the flow of [ex_setup] is too fast for RK4 on its own grid: [no_clip] fails *)
+Example C14_closed_rk_ex :
+  s_adv ex_setup_rk2 = 1 /\ s_adv ex_setup_rk4 = 2 /\ setup_ok ex_setup_rk2 = true /\ setup_ok ex_setup_rk4 = true /\
+  setup_ok (shift_setup ex_setup_rk2 777) = true /\ setup_ok (shift_setup ex_setup_rk4 777) = true /\
+  show_run (m_run (shift_setup ex_setup_rk2 777)) = show_run (m_run ex_setup_rk2) /\
+  show_run (m_run (shift_setup ex_setup_rk4 777)) = show_run (m_run ex_setup_rk4) /\
+  show_run (sp_run ex_setup_rk2) = show_run (m_run ex_setup_rk2) /\
+  show_run (sp_run ex_setup_rk4) = show_run (m_run ex_setup_rk4) /\
+  map Qred [m_uf ex_setup_rk2 0 0; m_uf ex_setup_rk2 0 (1 # 2); m_uf ex_setup_rk2 0 1] = [(-15)%Q; (-13)%Q; (-11)%Q] /\
+  xs_of (m_run ex_setup_rk2) = [(0, [5%Q]); (2, [(29 # 8)%Q; 6%Q; 6%Q]); (4, [3%Q; (91 # 16)%Q; (91 # 16)%Q])] /\
+  xs_of (m_run (with_adv ex_setup_rk2 0)) = [(0, [5%Q]); (2, [(27 # 8)%Q; 6%Q; 6%Q]); (4, [(21 # 8)%Q; (45 # 8)%Q; (45 # 8)%Q])] /\
+  xs_of (m_run ex_setup_rk4) = [(0, [5%Q]); (2, [(69 # 16)%Q; 6%Q; 6%Q]); (4, [4%Q; (187 # 32)%Q; (187 # 32)%Q])] /\
+  xs_of (m_run (with_adv ex_setup_rk4 1)) = xs_of (m_run ex_setup_rk4) /\
+  xs_of (m_run (with_adv ex_setup_rk4 0)) = [(0, [5%Q]); (2, [(67 # 16)%Q; 6%Q; 6%Q]); (4, [(61 # 16)%Q; (93 # 16)%Q; (93 # 16)%Q])] /\
+  no_clip (with_adv ex_setup 2) = false /\ setup_ok (with_adv ex_setup 2) = false.
+Proof. vm_compute. repeat split. Qed.
+
+(** non-vacuity, RK2 / RK4 next to LAND: [ex_setup_land_rk2] (dt/dx = 1/16) and [ex_setup_land_rk4] (dt/dx = 1/32) have
+    land in cell 4; the particle released at x = 5 sits between the masked face and an open face, so the flow it
+    feels changes with the STAGE position: the three schemes give three different trajectories on the same
+    set-up (positions of that particle in the first three records), RK4's division by 6 leaves the dyadic
+    rationals; shift invariance and the refinement of the specification hold as for every well-formed set-up *)
+Example C14_closed_rk_land_ex :
+  setup_ok ex_setup_land_rk2 = true /\ setup_ok ex_setup_land_rk4 = true /\
+  setup_ok (shift_setup ex_setup_land_rk2 777) = true /\ setup_ok (shift_setup ex_setup_land_rk4 777) = true /\
+  show_run (m_run (shift_setup ex_setup_land_rk2 777)) = show_run (m_run ex_setup_land_rk2) /\
+  show_run (m_run (shift_setup ex_setup_land_rk4 777)) = show_run (m_run ex_setup_land_rk4) /\
+  show_run (sp_run ex_setup_land_rk2) = show_run (m_run ex_setup_land_rk2) /\
+  show_run (sp_run ex_setup_land_rk4) = show_run (m_run ex_setup_land_rk4) /\
+  map (fun r => map (firstn 1) (map snd (firstn 3 (xs_of (m_run r)))))
+      [ex_setup_land_rk4; with_adv ex_setup_land_rk4 1; with_adv ex_setup_land_rk4 0] =
+    [[[5%Q]; [(243257965 # 50331648)%Q]; [(2006116605294515 # 422212465065984)%Q]];
+     [[5%Q]; [(19843 # 4096)%Q]; [(39965417 # 8388608)%Q]];
+     [[5%Q]; [(305 # 64)%Q]; [(9573 # 2048)%Q]]] /\
+  map (firstn 1) (map snd (firstn 3 (xs_of (m_run ex_setup_land_rk2)))) = [[5%Q]; [(4899 # 1024)%Q]; [(2453289 # 524288)%Q]] /\
+  map (firstn 1) (map snd (firstn 3 (xs_of (m_run (with_adv ex_setup_land_rk2 0))))) = [[5%Q]; [(145 # 32)%Q]; [(2309 # 512)%Q]].
 Proof. vm_compute. repeat split. Qed.
